@@ -149,6 +149,9 @@ class Gen:
                 elif k < 0.42 and self.opts["brace_params"]:
                     p += " = {}"
                     self.features.add("brace-params")
+                elif k < 0.5:
+                    p += " = () => 0"
+                    self.features.add("arrow-in-params")
             else:  # TypeScript
                 p = nm + self.r.choice([": number", ": string", "", ": Array<number>"])
                 k = self.r.random()
@@ -158,6 +161,9 @@ class Gen:
                 elif k < 0.2 and self.opts["brace_params"]:
                     p = "{a, b}: Opts"
                     self.features.add("brace-params")
+                elif k < 0.3:
+                    p = nm + self.r.choice([": () => void", ": (x: number) => Promise<void>", " = () => 0"])
+                    self.features.add("arrow-in-params")
             ps.append(p)
         if allow_multiline and self.opts["multiline_header"] and len(ps) >= 2 and self.r.random() < 0.25:
             self.features.add("multiline-header")
